@@ -374,8 +374,11 @@ pub fn run(ctx: &Ctx) -> Outcome {
         let gap = 28 * 86400i64 - 1;
         let mut l0s = vec![0i64, 1, 1_000_000_000, i64::MAX - gap - 2, i64::MAX - gap - 1, i64::MAX - gap, i64::MAX - gap + 1, i64::MAX - 2, i64::MAX - 1, i64::MAX];
         l0s.push(i32::MAX as i64);
+        l0s.extend([1i64 << 62, (1i64 << 62) + 1, i64::MAX / 2 + gap]);
         for &l0 in &l0s {
-            let mut l1s = vec![i64::MAX, i64::MAX - 1];
+            // incl. second records far BELOW the first one: the true difference does not fit i64 (a spacing test done in wrapping
+            // arithmetic sees a large positive gap there — operator sweep 3, timezone/mod.rs:372)
+            let mut l1s = vec![i64::MAX, i64::MAX - 1, i64::MIN, i64::MIN + 1, i64::MIN + gap, -(1i64 << 62), -1, 0];
             for d in -2i64..=2 {
                 if let Some(x) = l0.checked_add(gap).and_then(|x| x.checked_add(d)) {
                     l1s.push(x);
